@@ -1,5 +1,5 @@
 import MtailVerif.Proofs.Lexer
-import MtailVerif.Proofs.Pipeline
+import MtailVerif.Proofs.CompilePipeline
 import MtailVerif.Generated.Grammar
 import MtailVerif.Generated.Compile
 /-! C03 — the compiler terminates on any source text and never crashes.
@@ -10,13 +10,13 @@ What a theorem can carry here:
   input — Lean checked the termination argument), it consumes input, it stops only with EOF, and
   whatever the parser does with the InRegex flag — within the one place parser.y sets it — the
   token stream reaches EOF within 2·n+1 requests for an input of n runes;
-* the result plumbing of Compile (Model/Pipeline.lean): exactly one of code and error, and an
+* the result plumbing of Compile (Model/CompilePipeline.lean): exactly one of code and error, and an
   error lists at least one message, for arbitrary behaviour of the stages.
 The parser tables goyacc generates, the type checker and the code generator are not modelled for
 this property; for them the property is decided by search on the real compiler (the harness
 predicate: no panic, returns within the bound, exactly one result, deterministic). -/
 namespace MtailVerif.C03
-open MtailVerif MtailVerif.Lexer MtailVerif.Pipeline
+open MtailVerif MtailVerif.Lexer MtailVerif.CompilePipeline
 
 /-- Outside a regular expression a request consumes at least one rune of a non-empty input. -/
 theorem request_consumes (inp : List R) (c : C) :
